@@ -927,10 +927,13 @@ def judge_docs(run, specs, docs, thorough, need_all=True):
             continue
         recs = {}
         for r in o['auto']:
-            if 'hook_error' in r or has_bad(r) or auto_near_threshold(r):
+            if 'hook_error' in r or has_bad(r):
                 S['skipped_records'] += 1
                 continue
             recs.setdefault(r['tid'], []).append(r)
+            if auto_near_threshold(r):          # not sent to the Coq judge (float band), still used by the monitors
+                S['skipped_records'] += 1
+                continue
             cases['auto'].append((di, r, coq_auto_case(r, r['out'])))
             S['auto_calls'] += 1
         for r in o['fixed']:
